@@ -42,6 +42,7 @@ Input classes generated on purpose (audit after three rounds of seeded changes):
   ("the query returns").
 """
 import math
+import os
 import random
 
 import numpy as np
@@ -2220,6 +2221,28 @@ def run(chk):
 
 def replay(rp):
     case = rp["input"]
+    if case.get("kind") == "stamps":
+        # (the local time zone of the failing run is part of the input)
+        import time as _time
+        from datetime import datetime, timedelta
+        from qats import TimeSeries
+        if case.get("TZ"):
+            os.environ["TZ"] = case["TZ"]
+            if hasattr(_time, "tzset"):
+                _time.tzset()
+        n, dt = case["n"], case["dt"]
+        t = np.arange(n) * dt
+        x = np.sin(2 * np.pi * t / (12 * dt)) + 0.3 * np.sin(2 * np.pi * t / (5 * dt))
+        t0 = datetime.fromisoformat(case["start"])
+        try:
+            f0, p0 = TimeSeries("s", t, x).psd()
+            f1, p1 = TimeSeries("s", np.array([t0 + timedelta(seconds=float(v)) for v in t]), x).psd()
+            ok = np.shape(f0) == np.shape(f1) and np.allclose(f0, f1, rtol=1e-9, atol=0) and np.allclose(p0, p1, rtol=1e-9, atol=1e-300)
+        except Exception as e:      # noqa
+            print("raised %s: %s" % (type(e).__name__, e))
+            ok = False
+        print("replay: %d failing clause(s)" % (0 if ok else 1))
+        return 0 if ok else 1
     if case.get("kind") == "ts-options":
         from qats import TimeSeries
         n, dt0 = case["n"], case["dt"]
